@@ -34,3 +34,28 @@ let () = register "src_rle_count" (fun a -> scalar (srcrun_varintRLEGetCount (by
 let () = register "src_rle_rc" (fun a ->
   let b = bytes_of_hex a.(0) in
   scalar (srcrun_varintRLEGetRunCount fuel b (cz_of_z (BZ.of_int (List.length b)))))
+
+(* encoders and the analysis (struct varintRLEMeta out-parameter, NULL allowed) *)
+let out_meta = function
+  | None -> out_str "meta" "null"
+  | Some (((c, r), e), u) ->
+    let f = function None -> "unset" | Some v -> string_of_cz v in
+    out_str "meta" (String.concat "," [f c; f r; f e; f u])
+let blank = Some (((None, None), None), None)
+let () = register "src_rle_enc" (fun a ->
+  let vs = zlist_of_arg a.(0) in
+  let n = cz_of_z (BZ.of_int (List.length vs)) in
+  let meta = if a.(2) <> "0" then blank else None in
+  let r = if a.(1) <> "0" then srcrun_varintRLEEncodeWithHeader fuel (bytes_of_hex a.(3)) vs n meta
+          else srcrun_varintRLEEncode fuel (bytes_of_hex a.(3)) vs n meta in
+  match r with
+  | Some (COk ((w, out), m)) -> out_z "ret" w; out_hex "buf" out; out_meta m
+  | _ -> out_str "ret" (why r))
+let () = register "src_rle_size" (fun a ->
+  let vs = zlist_of_arg a.(0) in
+  let n = cz_of_z (BZ.of_int (List.length vs)) in
+  scalar (srcrun_varintRLESize fuel vs n);
+  (match srcrun_varintRLEIsBeneficial fuel vs n with Some (COk b) -> out_z "ben" b | r -> out_str "ben" (why r));
+  (match srcrun_varintRLEAnalyze fuel vs n blank with
+   | Some (COk (b, m)) -> out_z "ana" b; out_meta m
+   | r -> out_str "ana" (why r)))
